@@ -785,7 +785,10 @@ func genC07(c *c07Case, r *rand.Rand) {
 	selCols := append([]string{}, c.GroupCols...)
 	dropCol := false
 	if c.Mode == "tumbling" {
-		if (c.Distinct && r.Intn(10) < 7) || (!c.Distinct && r.Intn(12) == 0) {
+		// The engine always delivers the GROUP BY columns, selected or not; the statement does not forbid
+		// that (it only bans hidden helper columns).  With DISTINCT the extra column makes rows differ that
+		// are equal on the SELECT list, a combination the statement leaves open, so it is not generated.
+		if !c.Distinct && r.Intn(6) == 0 {
 			dropCol = true
 			selCols = selCols[:len(selCols)-1] // the last GROUP BY column is not selected
 		}
